@@ -19,6 +19,11 @@ CONTRACTS = {
     ),
 }
 
+CONTRACTS["HIST.nested_fuse_structural_ops"] = (
+    "x of rank 3-5 is fused twice on its leading axes (nested sub-index info), then conjugated / daggered / transposed / copied; the result must be valid at every nesting level and unfusing twice must give the same operation applied to x",
+    "seeded random arrays (rank 3-5, five symmetries with emphasis on the non self-inverse ones, abelian and fermionic)",
+)
+
 DERIVE = ["conj", "dagger", "transpose_rev", "copy", "conj_transpose", "neg"]
 
 
@@ -50,6 +55,59 @@ def gen_cases(tier, seed):
         k = int(rng.integers(1, nd))
         groups = [perm[:k], perm[k:]] if rng.integers(0, 2) else [perm[: max(2, k)]]
         yield {"contract": "HIST.derived_after_parent_use", "a": spec, "groups": groups, "how": DERIVE[i % len(DERIVE)]}
+    yield from gen_nested(tier, seed)
+
+
+def gen_nested(tier, seed):
+    rng = np.random.default_rng(seed + 177)
+    n = 300 if tier == "quick" else 5000
+    syms = ["U1", "U1U1", "Z4", "U1", "Z2", "Z2Z2"]
+    for i in range(n):
+        sym = syms[i % len(syms)]
+        ferm = bool((i // 3) % 2) and sym != "Z4"
+        nd = int(rng.integers(3, 6))
+        spec = rand_array_spec(rng, sym, ndim=nd, fermionic=ferm, max_charges=3, sizes=(1, 2), sparsity=0.15)
+        yield {"contract": "HIST.nested_fuse_structural_ops", "a": spec, "how": ["conj", "dagger", "copy", "neg"][i % 4]}
+
+
+def check_nested(d):
+    x = build_array(d["a"])
+    how = d["how"]
+    feats = {"how": how, "fermionic": bool(d["a"].get("fermionic")), "sym": d["a"]["sym"], "nested": True}
+    fails = []
+    try:
+        y = x.fuse((0, 1)).fuse((0, 1))  # axes 0,1 fused, then (that, next) fused: nested sub-index info
+        z = derive(y, how)
+        v, msg = is_valid(z)
+        if not v:
+            fails.append(("HIST.nested.valid_after_" + how, msg, feats))
+        ferm = bool(d["a"].get("fermionic"))
+        if how in ("conj", "copy", "neg"):
+            u = z.unfuse(0).unfuse(0)
+            v, msg = is_valid(u)
+            if not v:
+                fails.append(("HIST.nested.valid_after_unfusing", msg, feats))
+            # fermionic conj of a fused leg keeps the internal order of its sub-legs, so it differs from
+            # conj of the unfused array by a reordering sign: equality is only claimed without fermionic signs
+            if not (ferm and how == "conj"):
+                want = derive(x, how)
+                ok, why = arrays_equal(u, want, exact=True, why=True)
+                if not ok:
+                    fails.append(("HIST.nested.unfuse_twice_equals_op_on_original", f"{how}: {why}", feats))
+        else:
+            nd = z.ndim
+            u = z.unfuse(nd - 1).unfuse(nd - 1)
+            v, msg = is_valid(u)
+            if not v:
+                fails.append(("HIST.nested.valid_after_unfusing", msg, feats))
+    except Exception as e:  # noqa: BLE001
+        fails.append(("HIST.nested.no_exception", f"{type(e).__name__}: {str(e)[:200]}", feats))
+    return {
+        "fingerprint": ("nested", d["a"]["sym"], d["a"].get("fermionic"), repr(d["a"]["indices"]), how),
+        "nontrivial": len(x.blocks) > 0,
+        "failures": fails[:3],
+        "sample": {"sym": d["a"]["sym"], "how": how, "ndim": len(d["a"]["indices"])},
+    }
 
 
 def _run(d, warm):
@@ -78,6 +136,8 @@ def _run(d, warm):
 
 
 def check_case(d):
+    if d["contract"] == "HIST.nested_fuse_structural_ops":
+        return check_nested(d)
     fails = []
     feats = {"how": d["how"], "fermionic": bool(d["a"].get("fermionic")), "sym": d["a"]["sym"]}
     try:
